@@ -322,7 +322,9 @@ def case_koyama(rec, c):
     # sum structure: (1/N) sum_ij w_|i-j|(k) with the class's own kernel
     want = np.ones_like(k)
     q = None
-    for n in range(1, N):
+    # (the per-separation kernel methods are helpers of today's class, not part of the property: used when present)
+    own_kernel = hasattr(obj, 'koyama_kernel_fourier') and hasattr(obj, 'kernel_base')
+    for n in (range(1, N) if own_kernel else ()):
         w = np.asarray(obj.koyama_kernel_fourier(k=k, n=n), dtype=float)
         rec.trans()
         if np.any(np.abs(w) > 1 + 1e-12):
@@ -345,7 +347,7 @@ def case_koyama(rec, c):
             if shown <= 2:
                 rec.fail(dict(c, point={'k': float(k[i])}), 'DiscreteKoyama%r: omega(k=%r) is not finite' % (p, float(k[i])), tags(model, 'finite'), repro=repro(model, p, float(k[i])))
             continue
-        if abs(g - want[i]) > 1e-11 * N or g > N * (1 + 1e-11):
+        if (own_kernel and abs(g - want[i]) > 1e-11 * N) or g > N * (1 + 1e-11):
             shown += 1
             if shown <= 2:
                 rec.fail(dict(c, point={'k': float(k[i])}),
